@@ -27,24 +27,30 @@ type codecFrame struct {
 	Payload []byte `json:"payload"`
 	Sep     []byte `json:"sep,omitempty"` // json: whitespace written before the object
 	// expectations
-	Size    uint64 `json:"size"` // proto: value of the prefix
+	Size    uint64 `json:"size"`               // proto: value of the prefix
 	BadSize bool   `json:"bad_size,omitempty"` // prefix does not decode to a uint64 at all
 }
 
 type CodecScenario struct {
-	Codec      string       `json:"codec"` // proto | json | body
-	Frames     []codecFrame `json:"frames,omitempty"`
-	Body       []byte       `json:"body,omitempty"` // body codec: the upload
-	Limit      int          `json:"limit"`
-	InitCap    int          `json:"init_cap"`
-	CutAt      int          `json:"cut_at"`      // -1: none; else the reader reports clean EOF at this offset
-	ErrAt      int          `json:"err_at"`      // -1: none; else the reader fails with a non-EOF error at this offset
-	Faulted    bool         `json:"faulted"`     // fault class (cut / error) vs clean class
-	ZeroReads  bool         `json:"zero_reads"`  // legal (0,nil) reads allowed
-	EOFData    bool         `json:"eof_data"`    // final chunk may come as (n>0, io.EOF)
-	FreshBufs  bool         `json:"fresh_bufs"`  // caller may switch to a fresh buffer between calls
-	ViaWriter  bool         `json:"via_writer"`  // stream produced by WriteNext (else hand framed)
-	Stream     []byte       `json:"-"`
+	Codec     string       `json:"codec"` // proto | json | body
+	Frames    []codecFrame `json:"frames,omitempty"`
+	Body      []byte       `json:"body,omitempty"` // body codec: the upload
+	Limit     int          `json:"limit"`
+	InitCap   int          `json:"init_cap"`
+	CutAt     int          `json:"cut_at"`     // -1: none; else the reader reports clean EOF at this offset
+	ErrAt     int          `json:"err_at"`     // -1: none; else the reader fails with a non-EOF error at this offset
+	Faulted   bool         `json:"faulted"`    // fault class (cut / error) vs clean class
+	ZeroReads bool         `json:"zero_reads"` // legal (0,nil) reads allowed
+	EOFData   bool         `json:"eof_data"`   // final chunk may come as (n>0, io.EOF)
+	FreshBufs bool         `json:"fresh_bufs"` // caller may switch to a fresh buffer between calls
+	ViaWriter bool         `json:"via_writer"` // stream produced by WriteNext (else hand framed)
+	// Dense class: the reads end exactly at the offsets i (0 < i < len) whose bit
+	// i-1 is set in SplitMask; the mask comes from the run index, so that every
+	// one of the 2^(len-1) partitions of a short stream is among the runs of a
+	// batch (the tape still decides zero reads, EOF-with-data, buffers, faults).
+	Dense     bool   `json:"dense,omitempty"`
+	SplitMask uint64 `json:"split_mask,omitempty"`
+	Stream    []byte `json:"-"`
 }
 
 var errInjectedRead = errors.New("sim: injected transport read error")
@@ -53,6 +59,7 @@ type fragReader struct {
 	data    []byte
 	pos     int
 	end     int // data visible to the reader (cut)
+	end0    int // length of the whole stream
 	errAt   int
 	tape    *core.Tape
 	sc      *CodecScenario
@@ -91,16 +98,26 @@ func (f *fragReader) Read(p []byte) (int, error) {
 		max = len(p)
 	}
 	k := max
-	switch f.tape.Draw(4) {
-	case 1:
+	if f.sc.Dense {
 		k = 1
-		f.cnt[cOneByteRead]++
-	case 2:
-		k = 1 + f.tape.Draw(max)
-	case 3:
-		k = 1 + f.tape.Draw(8)
+		for f.pos+k < f.end0 && f.sc.SplitMask&(1<<uint(f.pos+k-1)) == 0 {
+			k++
+		}
 		if k > max {
 			k = max
+		}
+	} else {
+		switch f.tape.Draw(4) {
+		case 1:
+			k = 1
+			f.cnt[cOneByteRead]++
+		case 2:
+			k = 1 + f.tape.Draw(max)
+		case 3:
+			k = 1 + f.tape.Draw(8)
+			if k > max {
+				k = max
+			}
 		}
 	}
 	if k < max {
@@ -185,7 +202,122 @@ func appendNonMinimalVarint(b []byte, v uint64, width int) []byte {
 	return append(b, byte(v&0x7f))
 }
 
+// ---- dense class: every partition of a catalogue of short streams ----------
+
+type denseEntry struct {
+	codec  string
+	frames []codecFrame
+	body   []byte
+	limit  int // body: chunk size
+	n      int // stream length
+}
+
+var (
+	denseCatalogue []denseEntry
+	denseCaps      = []int{0, 1, 3, 64}
+	denseTotal     int
+)
+
+func init() {
+	pf := func(sizes ...int) []codecFrame { // hand-framed proto messages, minimal prefixes
+		var fs []codecFrame
+		for i, n := range sizes {
+			fs = append(fs, codecFrame{Prefix: protowire.AppendVarint(nil, uint64(n)), Payload: patternBytes(uint64(77+i), n), Size: uint64(n)})
+		}
+		return fs
+	}
+	jf := func(objs ...string) []codecFrame {
+		var fs []codecFrame
+		for _, o := range objs {
+			sep := ""
+			for len(o) > 0 && (o[0] == ' ' || o[0] == '\n') {
+				sep += o[:1]
+				o = o[1:]
+			}
+			f := codecFrame{Payload: []byte(o), Size: uint64(len(o))}
+			if sep != "" {
+				f.Sep = []byte(sep)
+			}
+			fs = append(fs, f)
+		}
+		return fs
+	}
+	add := func(e denseEntry) {
+		e.n = len(e.body)
+		for _, f := range e.frames {
+			e.n += len(f.Sep) + len(f.Prefix) + len(f.Payload)
+		}
+		if e.n > 12 {
+			panic("dense catalogue: stream too long")
+		}
+		denseCatalogue = append(denseCatalogue, e)
+	}
+	for _, fs := range [][]codecFrame{pf(), pf(0), pf(1), pf(0, 0), pf(2, 1), pf(3), pf(1, 0, 2), pf(5, 3), pf(0, 4, 0), pf(9), pf(1, 1, 1, 1, 1)} {
+		add(denseEntry{codec: "proto", frames: fs})
+	}
+	// a non-minimal two-byte prefix and a three-byte one
+	add(denseEntry{codec: "proto", frames: []codecFrame{{Prefix: []byte{0x82, 0x00}, Payload: []byte{7, 9}, Size: 2}, {Prefix: []byte{0x01}, Payload: []byte{5}, Size: 1}}})
+	add(denseEntry{codec: "proto", frames: []codecFrame{{Prefix: []byte{0x81, 0x80, 0x00}, Payload: []byte{3}, Size: 1}, {Prefix: []byte{0x80, 0x00}, Payload: nil, Size: 0}}})
+	for _, fs := range [][]codecFrame{jf(), jf(`{}`), jf(`{}`, `{}`), jf(`{"a":1}`), jf(`{"s":"}"}`), jf(`{}`, ` {}`, "\n{}"), jf(`{"a":{}}`, `{}`), jf(`{"s":"\""}`), jf(`{"é":1}`, `{}`), jf(`{"s":"\\\\"}`), jf(`{"a":[{}]}`)} {
+		add(denseEntry{codec: "json", frames: fs})
+	}
+	for _, lim := range []int{1, 2, 3, 5} {
+		for _, n := range []int{0, 1, 2, 3, 4, 5, 6, 7, 9, 10, 11} {
+			add(denseEntry{codec: "body", body: patternBytes(uint64(lim*100+n), n), limit: lim})
+		}
+	}
+	for _, e := range denseCatalogue {
+		k := e.n - 1
+		if k < 0 {
+			k = 0
+		}
+		denseTotal += len(denseCaps) << uint(k)
+	}
+}
+
+// denseScenario maps the first denseTotal run indexes of a batch onto
+// (catalogue stream, initial capacity, partition).
+func denseScenario(r *core.Rand, run int) *CodecScenario {
+	if run >= denseTotal {
+		return nil
+	}
+	j := run
+	for _, e := range denseCatalogue {
+		k := e.n - 1
+		if k < 0 {
+			k = 0
+		}
+		block := 1 << uint(k)
+		if j >= len(denseCaps)*block {
+			j -= len(denseCaps) * block
+			continue
+		}
+		sc := &CodecScenario{CutAt: -1, ErrAt: -1, Codec: e.codec, Dense: true, SplitMask: uint64(j % block), InitCap: denseCaps[j/block]}
+		sc.Frames = append([]codecFrame(nil), e.frames...)
+		sc.Body = e.body
+		sc.ViaWriter = e.codec == "json"
+		sc.ZeroReads = r.Chance(1, 4)
+		sc.EOFData = r.Chance(1, 2)
+		sc.FreshBufs = r.Chance(1, 4)
+		switch e.codec {
+		case "body":
+			sc.Limit = e.limit
+		default:
+			sc.Limit = pickLimit(r, sc.Frames)
+			if sc.Limit == 0 && e.codec == "json" {
+				sc.Limit = 1 << 20
+			}
+		}
+		sc.Faulted = r.Chance(1, 5)
+		return sc
+	}
+	return nil
+}
+
 func genCodecScenario(r *core.Rand, run int) *CodecScenario {
+	if sc := denseScenario(r, run); sc != nil {
+		return sc
+	}
 	sc := &CodecScenario{CutAt: -1, ErrAt: -1}
 	sc.Codec = []string{"proto", "json", "body"}[run%3]
 	sc.InitCap = r.Pick(0, 0, 1, 2, 3, 5, 8, 9, 10, 16, 63, 64, 65, 128, 1024, 4096)
@@ -393,7 +525,7 @@ func runCodec(t *testing.T, rc *RunCtx) *RunResult {
 	if cut >= 0 && cut < end {
 		end = cut
 	}
-	rd := &fragReader{data: stream, end: end, errAt: errAt, tape: tape, sc: sc, cnt: &res.Counters}
+	rd := &fragReader{data: stream, end: end, end0: len(stream), errAt: errAt, tape: tape, sc: sc, cnt: &res.Counters}
 	if errAt >= 0 && errAt < end {
 		end = errAt
 	}
@@ -598,6 +730,9 @@ func runCodec(t *testing.T, rc *RunCtx) *RunResult {
 			}
 			_ = f
 		}
+	}
+	if sc.Dense {
+		res.Counters[cDensePartition]++
 	}
 	if cut >= 0 {
 		mid := false
